@@ -10,4 +10,18 @@ pub(crate) mod verif_rig_pb {
         let pos = bs.state_pos_arc();
         ProgressBar { state: Arc::new(Mutex::new(bs)), pos, ticker: Arc::new(Mutex::new(None)) }
     }
+
+    // ---- recording stand-ins for ProgressBar::is_finished / finish_using_style in the adaptor harnesses: everything behind the
+    //      Arc<Mutex<BarState>> handle costs CBMC more than an hour; what the adaptors decide is WHEN they finish the bar ----
+    pub(crate) static mut PB_FINISHED: bool = false;
+    pub(crate) static mut PB_FINISH_CALLS: usize = 0;
+    pub(crate) fn rec_is_finished(_pb: &ProgressBar) -> bool {
+        unsafe { PB_FINISHED }
+    }
+    pub(crate) fn rec_finish_using_style(_pb: &ProgressBar) {
+        unsafe {
+            PB_FINISH_CALLS += 1;
+            PB_FINISHED = true;
+        }
+    }
 }
